@@ -41,9 +41,24 @@ let run_mask (f : string array) : string =
   let k = match bytes_of_hex f.(4) with [a;b;c;d] -> (((a,b),c),d) | _ -> failwith "key" in
   hex_of_bytes (mask_fast32 p k (bytes_of_hex f.(5)))
 
+(* SDG: same fields as S; prints the model-side digest of the whole run (kernel cross-check) *)
+let run_socket_digest (f : string array) : string =
+  let role = if f.(2) = "s" then Server else Client in
+  let wbs = n_of_string f.(3) in
+  let max = if f.(4) = "inf" then u64_max else n_of_string f.(4) in
+  let cfg = { cfg_write_buffer_size = wbs; cfg_max_write_buffer_size = max;
+              cfg_max_message_size = opt_n f.(5); cfg_max_frame_size = opt_n f.(6);
+              cfg_accept_unmasked = (f.(7) = "1") } in
+  let seed = int_of_string f.(9) in
+  let pre = bytes_of_hex f.(10) in
+  let ops = List.map op_of_string (list_of_field f.(11)) in
+  let w = { w_rds = List.map rd_of_string (list_of_field f.(12)); w_wrs = List.map wr_of_string (list_of_field f.(13));
+            w_fls = List.map fl_of_string (list_of_field f.(14)); w_keys = keys_of_seed seed (2 * List.length ops + 4); w_log = [] } in
+  string_of_n (run_digest role pre cfg ops w)
+
 let () =
   let handlers : (string * (string array -> string)) list ref = ref [
-    ("S", run_socket); ("CC", run_closecode); ("HP", run_header_parse); ("HF", run_header_format);
+    ("S", run_socket); ("SDG", run_socket_digest); ("CC", run_closecode); ("HP", run_header_parse); ("HF", run_header_format);
     ("FF", run_frame_format); ("U8", run_utf8); ("MK", run_mask) ] in
   handlers := !handlers @ Driver_hs.handlers;
   try
